@@ -9,8 +9,8 @@ Lemma resume_block_sig_none cf s mk m id :
   resume_block_sig None cf (s, mk) m id =
   (let '(s', b) := resume_block cf s m id in ((s', mk), b)).
 Proof.
-  unfold resume_block_sig, resume_block. cbn [fst send_sig].
-  destruct (lookup id (completed s)); reflexivity.
+  unfold resume_block_sig. cbn [fst snd]. destruct (resume_block cf s m id) as [s' b].
+  destruct b; reflexivity.
 Qed.
 
 Lemma block_poll_sig_none cf s mk m :
